@@ -46,23 +46,21 @@ const watchdog = 20 * time.Second
 
 const dkgPhaseLength = 3
 
-// Mode mirrors the two option fields of keyper/options.go.
+// Mode is a mode value of the specification: the name of the option sequence the keyper core is
+// built with (EonPK!OptSeq) and the flags it yields.
 type Mode struct {
-	Bc bool `json:"bc"`
-	Cb bool `json:"cb"`
+	Bc bool   `json:"bc"`
+	Cb bool   `json:"cb"`
+	O  string `json:"o"`
 }
 
-func (m Mode) String() string {
-	switch m {
-	case Mode{true, false}:
-		return "Broadcast"
-	case Mode{false, true}:
-		return "Callback"
-	case Mode{true, true}:
-		return "Both"
-	}
-	return "Neither"
-}
+func (m Mode) String() string { return m.O }
+
+// callbackMode is the configuration of all four flavours.
+var (
+	callbackMode = Mode{Bc: false, Cb: true, O: "Callback"}
+	callbackOpts = []string{"nobc", "handler"}
+)
 
 // Op is one step of a history printed by TLC (EonPKMC!Op).
 type Op struct {
@@ -149,6 +147,7 @@ type World struct {
 	revCfg map[uint64]int
 
 	handlers map[string]*keyper.VerifEonPubKeyHandler
+	hmu      sync.Mutex
 	Dead     bool
 }
 
@@ -422,25 +421,39 @@ func NewWorld(u *Universe) (*World, error) {
 		}
 	}
 	w.base = w.srv.Snapshot()
-	// the handlers, built by the repository's option functions
-	for _, m := range []Mode{{true, false}, {false, true}, {true, true}, {false, false}} {
-		opts := []keyper.Option{keyper.WithDBPool(pool), keyper.WithMessaging(w.rec)}
-		if !m.Bc {
-			opts = append(opts, keyper.NoBroadcastEonPublicKey())
-		}
-		if m.Cb {
-			opts = append(opts, keyper.WithEonPublicKeyHandler(w.rec.callback))
-		}
-		h, err := keyper.VerifNewEonPubKeyHandler(w.cfg, opts...)
-		if err != nil {
-			if strings.Contains(err.Error(), "no eon public key broadcast nor handler function provided") {
-				continue
-			}
-			return nil, err
-		}
-		w.handlers[m.String()] = h
-	}
 	return w, nil
+}
+
+// handler returns the handler built by the repository's option functions applied in the given
+// order ("nobc" = NoBroadcastEonPublicKey, "handler" = WithEonPublicKeyHandler); nil if
+// validateOptions refuses the combination. Handlers are long-lived: one per option sequence and world.
+func (w *World) handler(m Mode, optSeq []string) (*keyper.VerifEonPubKeyHandler, error) {
+	w.hmu.Lock()
+	defer w.hmu.Unlock()
+	if h, ok := w.handlers[m.O]; ok {
+		return h, nil
+	}
+	opts := []keyper.Option{keyper.WithDBPool(w.pool), keyper.WithMessaging(w.rec)}
+	for _, o := range optSeq {
+		switch o {
+		case "nobc":
+			opts = append(opts, keyper.NoBroadcastEonPublicKey())
+		case "handler":
+			opts = append(opts, keyper.WithEonPublicKeyHandler(w.rec.callback))
+		default:
+			return nil, fmt.Errorf("unknown option %q", o)
+		}
+	}
+	h, err := keyper.VerifNewEonPubKeyHandler(w.cfg, opts...)
+	if err != nil {
+		if strings.Contains(err.Error(), "no eon public key broadcast nor handler function provided") {
+			w.handlers[m.O] = nil
+			return nil, nil
+		}
+		return nil, err
+	}
+	w.handlers[m.O] = h
+	return h, nil
 }
 
 func (w *World) Close() {
@@ -463,9 +476,12 @@ func (w *World) Snapshot() *fakepg.DB  { return w.srv.Snapshot() }
 func (w *World) Restore(db *fakepg.DB) { w.srv.Restore(db.Clone()) }
 
 // New observes the construction of the handler for a mode.
-func (w *World) New(m Mode) Line {
+func (w *World) New(m Mode, optSeq []string) Line {
 	ln := Line{K: "new", Mode: m, Ord: []int{}, Q: "ok", Res: "ok", Pre: w.Rows(), Calls: []Call{}, Err: "nil"}
-	if w.handlers[m.String()] == nil {
+	h, err := w.handler(m, optSeq)
+	if err != nil {
+		ln.Panic = "constructor: " + err.Error()
+	} else if h == nil {
 		ln.Res = "invalid"
 	}
 	ln.Post = w.Rows()
@@ -530,7 +546,9 @@ func (w *World) Step(m Mode, op Op) Line {
 			}
 		})
 	case "tick":
-		h := w.handlers[m.String()]
+		w.hmu.Lock()
+		h := w.handlers[m.O]
+		w.hmu.Unlock()
 		if h == nil {
 			ln.Panic = "no handler for mode " + m.String()
 			break
